@@ -299,6 +299,41 @@ func (w *kworld) buildCase(impl gmsl.IRoomVersion, A, B, C, D, E *world.Server) 
 		p.Content = map[string]any{"membership": "leave", "join_authorised_via_users_server": "@w:" + string(C.Name)}
 		c.desc = "leave with authorised_via"
 	}
+	// Incidental content: members that look meaningful but change nothing
+	// about who has to sign (an invite that stems from a third-party invite is
+	// still an invite; a display name, a reason, a membership-like member of an
+	// event that is not m.room.member).
+	if cm, ok := p.Content.(map[string]any); ok && t.Chance(350) {
+		for i, n := 0, t.Range(1, 2); i < n; i++ {
+			switch t.Intn(7) {
+			case 0:
+				cm["third_party_invite"] = sim.Pick(t, []any{map[string]any{}, map[string]any{"display_name": "t...", "signed": map[string]any{"mxid": "@t:" + string(B.Name), "token": "tok", "signatures": map[string]any{string(D.Name): map[string]any{"ed25519:0": "AAAA"}}}}})
+				r.Probe("content_carries_third_party_invite")
+			case 1:
+				cm["displayname"] = "Someone"
+			case 2:
+				cm["is_direct"] = true
+			case 3:
+				cm["reason"] = "because"
+			case 4:
+				if p.Type != spec.MRoomMember {
+					cm["membership"] = sim.Pick(t, []string{"invite", "join"})
+					if p.StateKey != nil && t.Bool() {
+						p.StateKey = world.Str("@t:" + string(B.Name))
+					}
+					r.Probe("non_member_event_with_membership_content")
+				}
+			case 5:
+				if m, _ := cm["membership"].(string); p.Type != spec.MRoomMember || m != "join" {
+					cm["join_authorised_via_users_server"] = "@w:" + string(C.Name)
+					r.Probe("authorised_via_on_event_that_is_no_join")
+				}
+			case 6:
+				cm["org.example.nested"] = map[string]any{"membership": "invite", "join_authorised_via_users_server": "@w:" + string(D.Name)}
+			}
+		}
+		c.desc += " +incidental content"
+	}
 	c.desc = fmt.Sprintf("%s (v%s)", c.desc, ver)
 	// timestamp: around a boundary of one of the required servers' keys
 	names := make([]string, 0, len(req))
@@ -417,6 +452,15 @@ func (w *kworld) signCase(impl gmsl.IRoomVersion, c *evCase) {
 	// (the reference lists of unstable versions are upper bounds only)
 	stable := map[gmsl.RoomVersion]bool{"1": true, "2": true, "3": true, "4": true, "5": true, "6": true, "7": true, "8": true, "9": true, "10": true, "11": true, "12": true}
 	foreign := known && stable[c.ver] && t.Chance(400)
+	var cm map[string]json.RawMessage
+	if json.Unmarshal(ev.Content(), &cm) == nil {
+		if _, tpi := cm["third_party_invite"]; tpi {
+			// what survives of a third_party_invite member (`signed` only, from
+			// version 11; and what if there is no `signed`?) is where
+			// implementations may differ: the library signs these itself
+			foreign = false
+		}
+	}
 	if foreign {
 		r.Probe("signed_by_another_implementation")
 	}
